@@ -22,7 +22,8 @@ EXPLANATION = (
     "(sign from the offset, divmod(abs(minutes), 60), ':' only for Z) and the offset parse arm; (5) named "
     "formats: _FORMATS[k] is the constant K / the isoformat lambda, to_<k>_string calls _to_string('<k>'), "
     "constants aliases; to_iso8601_string rewrites +00:00 only for the zone named UTC; (6) from_format "
-    "forwards tz/locale and fills a missing tz. NOT decided: equality with strftime for every value, regex "
+    "forwards tz/locale and fills a missing tz; (7) the z token's pattern admits three-part IANA names and the values are "
+    "extracted from the anchored match (a localized name that is a prefix of another must not win). NOT decided: equality with strftime for every value, regex "
     "backtracking on literal separators, zone abbreviations."
 )
 
@@ -382,6 +383,47 @@ def _named_formats(ctx) -> None:
         ctx.ob("NAMED.method", f"DateTime.{q}", len(r) == 1 and nun(r[0].value) == want_s, f"returns {[nun(x.value) for x in r]}", dm.rel)
 
 
+def _zone_and_extraction(ctx, m, T) -> None:
+    # (a) the z token must admit IANA names with up to three '/'-separated parts, '_' '-' '+' and digits in the later parts
+    pat = T["_REGEX_TOKENS"].get("z")
+    if not isinstance(pat, str):
+        ctx.unverified("ZONE.regex", "token/z", f"entry {pat!r}", m.rel)
+    else:
+        tree = rx.parse(pat)
+        reps = []
+        for op, av in tree:
+            if op in (rx.C.MAX_REPEAT, rx.C.MIN_REPEAT):
+                lo, hi, sub = av
+                inner = list(sub)
+                if len(inner) == 1 and inner[0][0] is rx.C.SUBPATTERN:
+                    inner = list(inner[0][1][3])
+                if inner and inner[0] == (rx.C.LITERAL, ord("/")):
+                    reps.append((lo, hi, inner))
+        ok = bool(reps) and all(lo == 0 and (hi is rx.MAXREPEAT or hi >= 2) for lo, hi, _ in reps)
+        chars_ok = False
+        for _lo, _hi, inner in reps:
+            for op, av in inner[1:]:
+                if op in (rx.C.MAX_REPEAT,) and av[2][0][0] is rx.C.IN:
+                    cls = av[2][0][1]
+                    have = {chr(a) for o, a in cls if o is rx.C.LITERAL}
+                    chars_ok = {"_", "-", "+"} <= have
+        ctx.ob("ZONE.regex", "token/z", ok and chars_ok,
+               f"`{pat}` allows {[(lo, 'inf' if hi is rx.MAXREPEAT else hi) for lo, hi, _ in reps]} further '/'-separated parts; zone names such as "
+               f"America/Argentina/Buenos_Aires have three parts (and need _ - + in them), so format('z') could not be parsed back", m.rel)
+    # (b) the values must be extracted from the match of the *anchored* pattern
+    fn = m.func("Formatter.parse")
+    uses = []
+    for c in core.calls(fn):
+        f = nun(c.func)
+        if f.startswith("re.") and c.args and "pattern" in un(c.args[0]):
+            a0 = nun(c.args[0])
+            anchored = f == "re.fullmatch" or (a0.startswith("'^' + ") and a0.endswith(" + '$'"))
+            uses.append((f, a0, anchored))
+    ctx.ob("EXTRACT.anchored", "Formatter.parse/regex-uses", bool(uses) and all(u[2] for u in uses),
+           f"regex applications of the format pattern: {uses}; extracting values with the un-anchored pattern stops at the first "
+           f"alternative that matches (a localized name that is a prefix of another one is read as the shorter name)", m.loc(fn))
+
+
 def _from_format(ctx) -> None:
     im = pmod("__init__")
     fn = im.func("from_format")
@@ -407,6 +449,7 @@ def run(ctx) -> None:
     _reader(ctx, m, T, docs)
     _width_scale(ctx, m, T)
     _offsets(ctx, m)
+    _zone_and_extraction(ctx, m, T)
     _named_formats(ctx)
     _from_format(ctx)
     ctx.expect_min("TABLES.language", 40)
